@@ -160,6 +160,13 @@ class ProxyServer(simnet.Peer):
             self.inner.on_write(data)
             return
         self.pre_tunnel += data
+        if getattr(self, "forward_mode", False):
+            before = len(self.forward.requests)
+            self.forward.on_write(bytes(data))
+            self.requests.extend(self.forward.requests[before:])
+            self.out.extend(self.forward.out)
+            self.forward.out = []
+            return
         self.inbuf += data
         while self.inner is None:
             i = self.inbuf.find(b"\r\n\r\n")
@@ -179,7 +186,8 @@ class ProxyServer(simnet.Peer):
                         self.in_tunnel += early
                         self.inner.on_write(early)
                 return
-            # forward request: hand to the embedded H1 server
+            # forward request: hand to the embedded H1 server (and everything that follows on this connection)
+            self.forward_mode = True
             before = len(self.forward.requests)
             self.forward.on_write(bytes(self.inbuf))
             del self.inbuf[:]
